@@ -12,6 +12,7 @@ import (
 	"path/filepath"
 	"runtime/debug"
 	"strconv"
+	"strings"
 	"time"
 	"verif/prelude"
 
@@ -31,7 +32,12 @@ var (
 
 func main() {
 	debug.SetGCPercent(400) // the checks allocate many short-lived big numbers and bit slices on 16 cores
-	prelude.Scribble()      // a caller may write to what the library returned to it: nothing later may depend on that
+	if len(os.Args) < 2 || !strings.HasSuffix(os.Args[1], "-race") {
+		// a caller may write to what the library returned to it: nothing later may depend on that. (Not in the -race
+		// sub-commands: their first conversions must happen cold and concurrently, or a lazily built table is built
+		// here, single-threaded, and its unsynchronised publication is never seen.)
+		prelude.Scribble()
+	}
 	if len(os.Args) < 2 {
 		fmt.Fprintln(os.Stderr, "usage: runner <ID> [--tier quick|thorough] [--work dir]")
 		os.Exit(2)
